@@ -27,7 +27,8 @@ def RULE(tier):
     return ("cases = one API call inside a recorded session: %d sessions x %d events (calls of 18 entry points with arguments "
             "from pools in the formats strings / matrices / graph / circuit, 30%% caller-side mutations of earlier results: list "
             "clear/append/reverse/item and nested-item assignment/pop, circuit gates appended / data cleared / metadata and readout "
-            "info edited, dict overwrite/clear, graph edits, ndarray fill, MUBInfo members), three hash seeds; non-trivial = call "
+            "info edited, dict overwrite/clear, graph edits, ndarray fill, MUBInfo members), caller circuits with their own metadata, "
+            "a retention monitor on untouched earlier results after every call, three hash seeds; non-trivial = call "
             "issued after at least one mutation of an earlier result of the same entry point or a re-request; distinct = distinct "
             "(session, event)" % ((16, 600) if tier == "quick" else (96, 3000)))
 
